@@ -396,15 +396,22 @@ package table
 // from C10: "policies and statements in order; ... the first accept/reject decides"
 //@ func (*Policy).Apply
 //@   requires p != nil
-//@   claims step at-return
+//@   claims step at-return at-call inv-init inv-keep
 //@   loop 0 step result == ROUTE_TYPE_NONE
+// from C10: "modifications accumulate": the first statement sees the route as given, every later one the route as
+// left by the statements before it
+//@   loop 0 invariant __iter == -1 ==> path == path0
+//@   at-call stmt.Apply( requires arg2 == path
 //@   at-return requires ret0 != ROUTE_TYPE_NONE ==> ret0 == result
 
 // from C10: "otherwise the assignment's default applies"; reject yields no route
 //@ func (*RoutingPolicy).ApplyPolicy
 //@   requires r != nil
-//@   claims at-call at-return step
+//@   claims at-call at-return step inv-init inv-keep
 //@   loop 0 step result == ROUTE_TYPE_NONE
+// from C10: "modifications accumulate" across the policies of an assignment
+//@   loop 0 invariant __iter == -1 ==> after == before
+//@   at-call p.Apply( requires arg2 == after
 //@   at-call r.getDefaultPolicy( requires result == ROUTE_TYPE_NONE
 //@   at-return requires before == nil ==> ret0 == nil
 //@   at-return requires before != nil && !old(before.IsWithdraw) ==> (result == ROUTE_TYPE_ACCEPT ==> ret0 == after) && (result != ROUTE_TYPE_ACCEPT ==> ret0 == nil)
@@ -427,6 +434,8 @@ package table
 //@   requires forall k int :: 0 <= k && k < len(path.GetExtCommunities()) ==> path.GetExtCommunities()[k] != nil
 //@   claims at-return step post
 //@   at-return requires ret0 ==> isTransitiveType(x) && err == nil && found
+// "false only after every community failed that test": the scan is never cut short
+//@   at-return requires !ret0 ==> __iter + 1 >= len(extComms)
 //@   loop 0 step !(isTransitiveType(x) && err == nil && found)
 //@ func (*RouteTargetMembershipHandler).HasDefaultRouteTarget
 //@   pure
@@ -454,7 +463,12 @@ package table
 // clone's bookkeeping slices is not expressible across calls with the present contract language - DESIGN.md 8)
 //@ func UpdatePathAttrs
 //@   requires info != nil && original != nil && global != nil && original.GetSource() != nil
-//@   claims at-return
+//@   claims at-return at-call
+// from C09: "to eBGP peers the local AS prepended exactly once (... private-AS options applied)": the private-AS
+// option works on the path as received - it is applied before, never after, the local AS is prepended - and the
+// eBGP prepend is that of the session's local AS, once
+//@   at-call path.RemovePrivateAS( requires !called(PrependAsn)
+//@   at-call path.PrependAsn(info.LocalAS requires arg1 == info.LocalAS && arg2 == 1
 //@   at-return requires old(info.RouteServerClient) ==> ret0 == original
 //@   at-return requires !old(info.RouteServerClient) ==> ret0 != nil && fresh(ret0)
 
